@@ -491,10 +491,73 @@ static void do_tool(void) {
 	vh_case_end();
 }
 
+/* ---- C04: many sources (the binary heap only gets interesting beyond six entries) ----
+ * n = 7..8 (thorough 9) one-entry-plus-tail sources whose first keys are ALL permutations of n distinct keys in add order; every source
+ * also holds the common key 'z'. Drained with and without merge function; real readers for a sample of the permutations. */
+typedef struct { int n; int first[10]; int pos; uint8_t *lk, *lv; int id; } ksrc_it;
+typedef struct { int first; int id; } ksrc;
+static mtbl_res ks_next(void *v, const uint8_t **k, size_t *kl, const uint8_t **val, size_t *vl) {
+	ksrc_it *x = v; free(x->lk); free(x->lv); x->lk = x->lv = NULL;
+	if (x->pos >= 2) return mtbl_res_failure;
+	x->lk = malloc(1); x->lk[0] = x->pos == 0 ? (uint8_t) ('a' + x->first[0]) : 'z';
+	x->lv = malloc(2); x->lv[0] = 'A' + x->id; x->lv[1] = x->pos == 0 ? '0' : '1';
+	*k = x->lk; *kl = 1; *val = x->lv; *vl = 2; x->pos++;
+	return mtbl_res_success;
+}
+static mtbl_res ks_seek(void *v, const uint8_t *k, size_t kl) { ksrc_it *x = v; uint8_t f = 'a' + x->first[0]; x->pos = (kl == 0 || vh_bscmp(&f, 1, k, kl) >= 0) ? 0 : (vh_bscmp((const uint8_t *) "z", 1, k, kl) >= 0 ? 1 : 2); return mtbl_res_success; }
+static void ks_free(void *v) { ksrc_it *x = v; free(x->lk); free(x->lv); free(x); }
+static struct mtbl_iter *ks_iter(void *c) { ksrc *s = c; ksrc_it *x = calloc(1, sizeof *x); x->first[0] = s->first; x->id = s->id; return mtbl_iter_init(ks_seek, ks_next, ks_free, x); }
+static struct mtbl_iter *ks_get(void *c, const uint8_t *k, size_t kl) { (void) k; (void) kl; return ks_iter(c); }
+static struct mtbl_iter *ks_range(void *c, const uint8_t *a, size_t al, const uint8_t *b, size_t bl) { (void) a; (void) al; (void) b; (void) bl; return ks_iter(c); }
+static int g_many_perm[10], g_many_n, g_many_merge;
+static void render_many(char *b, size_t n, void *ctx) { (void) ctx; int o = snprintf(b, n, "MANY:%d:%d:", g_many_n, g_many_merge); for (int i = 0; i < g_many_n; i++) o += snprintf(b + o, n - o, "%d", g_many_perm[i]); }
+static void many_run(void) {
+	vh_case_begin(render_many, NULL);
+	int n = g_many_n; ksrc ks[10]; struct mtbl_source *src[10];
+	struct mtbl_merger_options *mo = mtbl_merger_options_init(); g_mstyle = 0; g_failkey = -1;
+	if (g_many_merge) mtbl_merger_options_set_merge_func(mo, fold_merge, NULL);
+	struct mtbl_merger *m = mtbl_merger_init(mo); mtbl_merger_options_destroy(&mo);
+	for (int i = 0; i < n; i++) { ks[i].first = g_many_perm[i]; ks[i].id = i; src[i] = mtbl_source_init(ks_iter, ks_get, ks_get, ks_range, NULL, &ks[i]); mtbl_merger_add_source(m, src[i]); }
+	struct mtbl_iter *it = mtbl_source_iter(mtbl_merger_source(m));
+	const uint8_t *k, *v; size_t kl, vl; int got = 0; int zs = 0; bool bad = false;
+	while (mtbl_iter_next(it, &k, &kl, &v, &vl) == mtbl_res_success) {
+		if (got < n) { if (kl != 1 || k[0] != 'a' + got || vl != 2 || v[1] != '0') { vh_violation("many-sources", "entry #%d is key %s, expected key %c (the %d first keys must come out in ascending order)", got, vh_hex(k, kl), 'a' + got, n); bad = true; break; } }
+		else {
+			if (kl != 1 || k[0] != 'z') { vh_violation("many-sources", "entry #%d is key %s, expected the common key z", got, vh_hex(k, kl)); bad = true; break; }
+			if (g_many_merge) { unsigned seen = 0; int leaves = 0; for (size_t i = 0; i + 1 < vl; i++) if (v[i] >= 'A' && v[i] < 'A' + n && v[i + 1] == '1') { seen |= 1u << (v[i] - 'A'); leaves++; } if (leaves != n || seen != (1u << n) - 1) { vh_violation("many-sources", "the common key folds %d values (mask %x), %d sources hold it", leaves, seen, n); bad = true; break; } zs = n; }
+			else zs++;
+		}
+		got++;
+		if (got > 3 * n) { vh_violation("many-sources", "more entries than the sources hold"); bad = true; break; }
+	}
+	if (!bad && (got != (g_many_merge ? n + 1 : 2 * n) || zs != n)) vh_violation("many-sources", "iteration returned %d entries (%d for the common key) from %d two-entry sources", got, zs, n);
+	mtbl_iter_destroy(&it); mtbl_merger_destroy(&m);
+	for (int i = 0; i < n; i++) mtbl_source_destroy(&src[i]);
+	VH_COUNT("states", 1); VH_COUNT("executions", 1); VH_COUNT("transitions", got + 1); VH_COUNT("many_source_drains", 1);
+	vh_case_end();
+}
+static void do_many(void) {
+	uint64_t idx = 0;
+	for (int n = 5; n <= (vh_thorough ? 9 : 8); n++) {
+		int p[10]; for (int i = 0; i < n; i++) p[i] = i;
+		for (;;) {
+			if (vh_mine(idx++ >> 6)) { if (vh_time_up() || vh_too_many()) return; g_many_n = n; memcpy(g_many_perm, p, sizeof(int) * n); for (g_many_merge = 0; g_many_merge < 2; g_many_merge++) many_run(); }
+			/* next permutation */
+			int i = n - 2; while (i >= 0 && p[i] > p[i + 1]) i--;
+			if (i < 0) break;
+			int j = n - 1; while (p[j] < p[i]) j--;
+			int t = p[i]; p[i] = p[j]; p[j] = t;
+			for (int a = i + 1, b = n - 1; a < b; a++, b--) { t = p[a]; p[a] = p[b]; p[b] = t; }
+		}
+		vh_sig(vh_mix(0x3a27, n));
+	}
+}
+
 int main(int argc, char **argv) {
 	vh_init(argc, argv);
 	BS = (bfs_sys) { .ctx = &S, .open = ms_open, .close = ms_close, .step = ms_step, .canon = ms_canon, .alphabet = ms_alphabet, .explain = ms_explain, .state_cap = 200000, .viol_key = "merger" };
 	if (vh_case_arg) {
+		if (!strncmp(vh_case_arg, "MANY:", 5)) { char pm[16] = ""; sscanf(vh_case_arg, "MANY:%d:%d:%15s", &g_many_n, &g_many_merge, pm); for (int i = 0; i < g_many_n; i++) g_many_perm[i] = pm[i] - '0'; many_run(); return vh_finish(); }
 		const char *s = vh_case_arg; int off = 0, mg, ds;
 		if (sscanf(s, "M:%d:%n", &S.F.k, &off) < 1) return 2; s += off;
 		for (int i = 0; i < S.F.k; i++) { if (sscanf(s, "%c%d,%n", &S.F.kind[i], &S.F.mask[i], &off) < 2) return 2; s += off; }
@@ -516,6 +579,7 @@ int main(int argc, char **argv) {
 	else if (!strcmp(mode, "fail")) { BS.viol_key = "merge-failure"; for_each_family(vh_thorough ? 4 : 3, "rxy", do_fail); }
 	else if (!strcmp(mode, "bfs")) { BS.viol_key = "seek-contract"; for_each_family(vh_thorough ? 3 : 2, vh_thorough ? "rxd" : "rmud", do_bfs); }
 	else if (!strcmp(mode, "tree")) { BS.viol_key = "seek-contract"; g_treedepth = vh_thorough ? 4 : 3; for_each_family(2, "x", do_bfs); }
+	else if (!strcmp(mode, "many")) { do_many(); }
 	else if (!strcmp(mode, "srcwrite")) { BS.viol_key = "source-write"; for_each_family(3, "rmx", do_srcwrite); }
 	else if (!strcmp(mode, "tool")) { BS.viol_key = "mtbl_merge"; for_each_family(vh_thorough ? 3 : 2, "rm", do_tool); }
 	else if (!strcmp(mode, "lookup")) { BS.viol_key = "lookup"; for_each_family(vh_thorough ? 3 : 2, "rmx", do_lookup); }
